@@ -32,7 +32,20 @@ def validate(work, recs, prelude, tag="vm", maxsteps=3000, timeout=1800, workers
     """Returns ({id: verdict}, TlcResult-like). recs must carry code/steps/next.  The records are validated in chunks (one TLC run
     each, a few in parallel): one run over tens of thousands of recorded traces does not fit the JVM."""
     import concurrent.futures as cf
-    chunks = [recs[i:i + chunk] for i in range(0, len(recs), chunk)] or [[]]
+    import json as _json
+    # chunks are bounded in records AND in bytes; a single recorded trace above 1 MiB (thousands of steps over a wide or deep value) gets no
+    # verdict (out of model, counted by the caller): one such batch kept TLC busy for half an hour
+    chunks, cur, size = [], [], 0
+    for rec in recs:
+        n = len(_json.dumps(rec, separators=(",", ":")))
+        if n > (1 << 20):
+            continue
+        if cur and (len(cur) >= chunk or size + n > (48 << 20)):
+            chunks.append(cur)
+            cur, size = [], 0
+        cur.append(rec)
+        size += n
+    chunks.append(cur)
     par = 1 if len(chunks) == 1 else min(4, len(chunks))
     w = workers or max(2, vc.NCPU // par)
 
